@@ -14,7 +14,7 @@
 From Coq Require Import List Arith NArith ZArith Bool Permutation.
 From Coq Require Import QArith Qcanon.
 From PrefVerif Require Import Lib.Val Model.Scoring Proofs.ScoreTable Proofs.Scoring Proofs.ScoringSAV
-  Proofs.ScoringCopeland.
+  Proofs.ScoringCopeland Proofs.ScoringPairwise.
 Import ListNotations.
 Local Close Scope Qc_scope.
 Local Close Scope Q_scope.
@@ -166,6 +166,39 @@ Theorem is_approval_spec : forall i, wf_inst i -> dt_in (dt i) [Toc; Soc; Toi; S
     (forall om, In om (prof i) -> length (concat (fst om)) = length (alts i)))).
 Proof. exact Proofs.Scoring.is_approval_spec. Qed.
 Print Assumptions is_approval_spec.
+
+(* ---- consolidation with C07: the mirrors of borda_scores / copeland_scores used above are the SAME tables as
+        Model/Pairwise.v's (PW), whose voter-level meaning Properties/C07.v proves.  `to_pw i` is the instance i
+        seen as a C07 instance; PW.margin p a b = #voters a above b - #voters b above a; PW.borda_total = the
+        Borda total of borda_spec (C07); pw_wins al p a = number of b <> a in al with PW.margin p a b > 0. ---- *)
+Theorem borda_scores_agree : forall i, borda_scores i = PW.borda_scores (to_pw i).
+Proof. exact Proofs.ScoringPairwise.borda_scores_agree. Qed.
+Print Assumptions borda_scores_agree.
+
+Theorem borda_lookup_agree : forall i a,
+  lookup 0%Z (tbl_adds Z.add 0%Z [] (borda_events (n_alt i) (prof i))) a = PWP.getd (PW.borda_table (to_pw i)) a.
+Proof. exact Proofs.ScoringPairwise.borda_lookup_agree. Qed.
+Print Assumptions borda_lookup_agree.
+
+Theorem copeland_scores_agree : forall i, wf_inst i -> copeland_scores i = PW.copeland_scores (to_pw i).
+Proof. exact Proofs.ScoringPairwise.copeland_scores_agree. Qed.
+Print Assumptions copeland_scores_agree.
+
+Theorem copeland_entry_agree : forall i a b, wf_inst i ->
+  PW.tget (copeland_table (alts i) (prof i)) a b = PW.tget (PW.copeland_table (to_pw i)) a b.
+Proof. exact Proofs.ScoringPairwise.copeland_entry_agree. Qed.
+Print Assumptions copeland_entry_agree.
+
+Theorem borda_winner_pairwise : forall i, wf_inst i -> wf_complete i -> dt_in (dt i) [Soc; Toc] = true ->
+  exists w, borda_winner i = Ok w /\
+            forall a, In a w <-> is_maxZ (PW.borda_total (Z.of_N (n_alt i)) (prof i)) (alts i) a.
+Proof. exact Proofs.ScoringPairwise.borda_winner_pairwise. Qed.
+Print Assumptions borda_winner_pairwise.
+
+Theorem copeland_winner_pairwise : forall i, wf_inst i -> dt_in (dt i) [Soc] = true ->
+  exists w, copeland_winner i = Ok w /\ forall a, In a w <-> is_max (pw_wins (alts i) (prof i)) (alts i) a.
+Proof. exact Proofs.ScoringPairwise.copeland_winner_pairwise. Qed.
+Print Assumptions copeland_winner_pairwise.
 
 (* ---- the hypotheses are satisfiable by non-trivial inputs ---- *)
 (* the profile on which summed margins and contests won differ (fix fbdf4f2): 1 wins both contests *)
